@@ -72,6 +72,26 @@ CHECKS["C11"] = ("proof",
     "Assumes w.l.o.g. own id = 0 (ids enter only via own XOR id); full-bucket branches on injected capacity 2; shapes up to 4 buckets. "
     "Trusted: stable sort, dataclass equality, to_bytes/from_bytes inverse, lru_cache transparency.",
     "symbolic execution of the real AST from injected invariant states, VCs by z3/cvc5", "3 C11")
+CHECKS["C18"] = ("proof",
+    "Start-up reconciliation of the real BlobManager.setup / ensure_completed_blobs_status / SQLiteStorage.sync_missing_blobs / add_blobs "
+    "for every (directory, table) state of a three-hash universe and two consecutive start-ups: reported => file present; file present "
+    "=> row finished; finished without file => pending; second start reports exactly the files present; is_mine of an existing row is "
+    "kept; plus blob_completed, delete_blob(s), stop. The SQL text of the real statements is parsed and interpreted at run time (a "
+    "changed statement changes the proved semantics). Bounded: differential against real sqlite over all 125 table states, real "
+    "manager on a real directory (216 states), up to 1003 files (501-row batches).",
+    "Trusted: the single-table SQL interpreter (cross-checked by the bounded differential against real sqlite), dictionary file system "
+    "standing in for os, asyncio.Event as a flag. Universe of three hashes per proof; files changing during setup not decided.",
+    "symbolic execution of the real AST with an interpreted SQL fragment, VCs by z3/cvc5; bounded differential vs sqlite", "3 C18")
+CHECKS["C12"] = ("other",
+    "Per-function clauses only (the network-wide hit/termination guarantees are NOT decided): announcements returned iff younger than "
+    "24 h and cleanup never changes a lookup (DictDataStore), store token check, findValue paging lemma over the real client rule for "
+    "every n <= 100 (known finding F9 at n = 89, 97, 98), node finder yields only peers that replied and never the own id, value finder "
+    "yields only well-formed public addresses, search-round bookkeeping. Bounded: simulated networks of 2..40 real nodes with delay, "
+    "reordering, duplication (hit immediately and at 20 h, nothing at 25 h).",
+    "Level 'other': a minority of the statement is decided by contracts; the deductive part itself discharges all its obligations "
+    "(3994) except the two refutations covered by known finding F9. Trusted: lru_cache transparency, seeded shuffle is a permutation, "
+    "sha384 uninterpreted, asyncio.Queue/Event fakes, integer clocks.",
+    "symbolic execution of the real AST per function + paging lemma, VCs by z3/cvc5; bounded network simulation", "3 C12")
 NOT_YET = {}
 
 def main():
